@@ -46,7 +46,7 @@ def monitor(am, engine, cx, events, snaps):
         seg = []
         for o in recs:
             if o[0] != "trans":
-                if o[0] in ("act", "sched", "cancel", "acterr", "err"):
+                if o[0] in ("act", "sched", "cancel", "acterr", "err", "enter", "leave"):
                     seg.append(o)
                 continue
             tid = o[1]
@@ -91,7 +91,7 @@ def monitor(am, engine, cx, events, snaps):
             if begin is not None and t is not None and isinstance(t.target, int) and t.target != 0:
                 top = lca(am, t.src, t.target)
                 for x in seg:
-                    who = x[1] if x[0] in ("sched", "cancel") else (mm[x[1]][1] if x[0] == "act" and x[1] in mm and mm[x[1]][0] != "trans" else None)
+                    who = x[1] if x[0] in ("sched", "cancel", "enter", "leave") else (mm[x[1]][1] if x[0] == "act" and x[1] in mm and mm[x[1]][0] != "trans" else None)
                     if who is not None and not am.is_desc(who, top):
                         out.append(("transition %d (%d -> %d) touched state %d outside the subtree of their common ancestor %d (%s)"
                                     % (tid, t.src, t.target, who, top, x[0]), None))
@@ -107,7 +107,7 @@ def monitor(am, engine, cx, events, snaps):
     if not aborted and snaps[-1]["status"] in (1, 2):
         active = set()
         for i, o in enumerate(log):
-            if o[0] == "sched":
+            if o[0] == "enter":
                 if o[1] in active:
                     tid = next((x[1] for x in log[i:] if x[0] == "trans"), None)
                     t = tmap.get(tid)
@@ -117,7 +117,7 @@ def monitor(am, engine, cx, events, snaps):
                         sig = dict(kind="entered-while-active", cause="history-target-while-parallel-parent-active")
                     out.append(("state %d was entered while already active (transition %s)" % (o[1], tid), sig))
                 active.add(o[1])
-            elif o[0] == "cancel":
+            elif o[0] == "leave":
                 if o[1] not in active:
                     out.append(("state %d was exited while not active" % o[1], None))
                 active.discard(o[1])
